@@ -130,6 +130,34 @@ Theorem C07_integer_attribute_clamped : forall attr minimum v,
 Proof. exact integer_attribute_clamped. Qed.
 Print Assumptions C07_integer_attribute_clamped.
 
+(* the call sites of integerAttribute (NewTableCellBox, TableColumnBox.span, TableColumnGroupBox.span):
+   the number the table code receives is the HTML "clamped to the range" value of the attribute *)
+Theorem C07_cell_colspan_spec : forall attr,
+  cell_colspan attr = Ok (match atoi (trim_space attr) with Some x => clamp 1 1000 x | None => 1 end).
+Proof. exact cell_colspan_spec. Qed.
+Print Assumptions C07_cell_colspan_spec.
+
+Theorem C07_cell_rowspan_spec : forall attr,
+  cell_rowspan attr = Ok (match atoi (trim_space attr) with Some x => clamp 0 65534 x | None => 1 end).
+Proof. exact cell_rowspan_spec. Qed.
+Print Assumptions C07_cell_rowspan_spec.
+
+Theorem C07_column_span_spec : forall attr,
+  column_span attr = Ok (match atoi (trim_space attr) with Some x => clamp 1 1000 x | None => 1 end) /\
+  column_group_span attr = column_span attr.
+Proof. exact column_span_spec. Qed.
+Print Assumptions C07_column_span_spec.
+
+(* every cell covers >= 1 column, every <col> / <colgroup> stands for >= 1 column, all spans bounded:
+   the precondition of the grid indexing in build.go / layout (table.go, preferred.go) *)
+Theorem C07_table_spans_range : forall attr,
+  (exists c, cell_colspan attr = Ok c /\ 1 <= c <= 1000) /\
+  (exists r, cell_rowspan attr = Ok r /\ 0 <= r <= 65534) /\
+  (exists s, column_span attr = Ok s /\ 1 <= s <= 1000) /\
+  (exists s, column_group_span attr = Ok s /\ 1 <= s <= 1000).
+Proof. exact table_spans_range. Qed.
+Print Assumptions C07_table_spans_range.
+
 Theorem C07_font_size_attr_total : forall attr, exists r, font_size_attr attr = Ok r.
 Proof. exact font_size_attr_total. Qed.
 Print Assumptions C07_font_size_attr_total.
